@@ -55,7 +55,8 @@ type variant struct {
 	name      string
 	e         *catalog.Entry
 	mod       func(st *catalog.State, a *catalog.Args)
-	srcAction string // overrides e.SrcAction
+	srcAction string                                      // overrides e.SrcAction
+	batch     func(st *catalog.State, x *extras) []bentry // DeleteObjects body built by the check (vbatch.go)
 }
 
 func variants() []variant {
@@ -80,7 +81,7 @@ func variants() []variant {
 			a.DelKeys = []string{st.Obj.Key, st.Nested.Key, st.Dir.Key}
 		}},
 	)
-	return vs
+	return append(vs, batchShapes()...)
 }
 
 func (v *variant) args(st *catalog.State) catalog.Args {
@@ -118,6 +119,7 @@ type kase struct {
 	tClass  string // class drawn for the target bucket
 	tShape  string
 	involve []string
+	batch   []bentry // entries of a batch delete over the versioned bucket (nil: the catalogue's body)
 }
 
 type worker struct {
@@ -133,6 +135,7 @@ type worker struct {
 	tmpl  string
 	env   *fx.Env
 	st    *catalog.State
+	x     *extras
 	root  *s3c.Client
 	acc   map[string]account
 	world map[string]*bcfg
@@ -210,6 +213,9 @@ func (w *worker) start() error {
 		}
 	}
 	if err := okOr("delete probe policy", root.Sub("DELETE", w.st.Empty, "", "policy", nil)); err != nil {
+		return err
+	}
+	if err := w.seedExtras(root); err != nil {
 		return err
 	}
 	w.acc = map[string]account{
@@ -485,7 +491,8 @@ func (w *worker) genSetup(r *rand.Rand, b string, keys []string, action string, 
 var roles = []string{"userplus", "user", "userplus", "user", "userplus", "user", "userplus", "user", "userplus", "user", "admin", "root"}
 
 func (w *worker) genCase(r *rand.Rand, v *variant, id string) *kase {
-	k := &kase{id: id, v: v, a: v.args(w.st)}
+	k := &kase{id: id, v: v}
+	w.bind(k)
 	k.role = roles[r.Intn(len(roles))]
 	k.who = w.acc[k.role]
 	k.owner = r.Intn(2) == 0
@@ -501,7 +508,20 @@ func (w *worker) genCase(r *rand.Rand, v *variant, id string) *kase {
 				return nil
 			}
 		}
-		s, class, shape := w.genSetup(r, k.a.Bucket, w.targetKeys(k.a), e.Action, k.who, k.owner)
+		action := e.Action
+		if k.batch != nil && r.Intn(2) == 0 {
+			action = "s3:DeleteObjectVersion"
+		}
+		s, class, shape := w.genSetup(r, k.a.Bucket, w.targetKeys(k.a), action, k.who, k.owner)
+		if k.batch != nil && s.Policy != nil && r.Intn(2) == 0 {
+			// a policy that treats the two delete actions differently, per key
+			name := k.who.ak
+			if k.role == "root" {
+				name = ""
+			}
+			s.Policy = genSplitPolicy(r, k.a.Bucket, w.targetKeys(k.a), name, otherAK)
+			shape = fmt.Sprintf("policy:split:%dstmt:deny=%v", len(s.Policy.Stmts), s.Policy.hasDeny())
+		}
 		k.owner = s.Owner == k.who.ak
 		k.tClass, k.tShape = class, shape
 		k.setups = append(k.setups, s)
@@ -559,11 +579,12 @@ func (k *kase) callerClass(hasBucket bool) string {
 // reference decision
 
 type verdict struct {
-	allow  bool
-	class  string          // class of the configuration that decided (policy | acl)
-	perKey map[string]bool // batch delete: decision per key
-	expl   string          // for deny: the alternative under which the reference would allow
-	hasBkt bool
+	allow    bool
+	class    string          // class of the configuration that decided (policy | acl)
+	perKey   map[string]bool // batch delete: decision per key
+	perEntry []bool          // batch delete with version ids: decision per entry
+	expl     string          // for deny: the alternative under which the reference would allow
+	hasBkt   bool
 }
 
 func resourceOf(b, key string) string {
@@ -633,6 +654,10 @@ func (w *worker) decide(k *kase) verdict {
 		return v
 	case !v.hasBkt:
 		return v // ListBuckets: everybody may list (what is listed is judged separately)
+	}
+	if k.batch != nil {
+		w.decideBatch(k, &v)
+		return v
 	}
 	cfg := w.world[a.Bucket]
 	v.class = cfg.class()
@@ -739,6 +764,9 @@ func describe(b *s3c.Built, r *s3c.Resp) map[string]any {
 
 func (w *worker) send(k *kase, acct account) (*s3c.Built, *s3c.Resp) {
 	rq := k.v.e.Request(k.a, catalog.BodyValid).Req()
+	if k.batch != nil {
+		rq.Body = batchXML(k.batch)
+	}
 	rq.Watchdog = 60 * time.Second
 	cl := w.root.With(acct.ak, acct.sk)
 	b := cl.Build(rq)
@@ -826,6 +854,14 @@ func (w *worker) runCase(k *kase) {
 		}
 	}
 	v := w.decide(k)
+	var pre *versionState
+	if k.batch != nil {
+		var err error
+		if pre, err = w.versionState(k.a.Bucket); err != nil {
+			w.c.Inconclusive("version listing before a batch delete failed")
+			return
+		}
+	}
 	s1 := w.snapshot()
 	b, resp := w.send(k, k.who)
 	w.c.Eval(1)
@@ -859,6 +895,13 @@ func (w *worker) runCase(k *kase) {
 		if v.perKey != nil {
 			m["reference_per_key"] = v.perKey
 		}
+		if v.perEntry != nil {
+			pe := map[string]bool{}
+			for i, be := range k.batch {
+				pe[fmt.Sprintf("%d:%s", i, be)] = v.perEntry[i]
+			}
+			m["reference_per_entry"] = pe
+		}
 		if len(d) > 0 {
 			m["tree_diff"] = short(d)
 		}
@@ -868,6 +911,20 @@ func (w *worker) runCase(k *kase) {
 		return fmt.Sprintf("%s:%s:%s:%s:expl=%s", k.v.name, v.class, cc, kind, v.expl)
 	}
 	switch {
+	case v.perEntry != nil && !v.allow:
+		// batch delete with version ids and at least one denied entry: every denied entry must survive
+		w.c.Add("denied_cases", 1)
+		bad := w.judgeBatch(k, &v, resp, pre, cc, det)
+		anyAllowed := false
+		for _, ok := range v.perEntry {
+			anyAllowed = anyAllowed || ok
+		}
+		if bad == 0 && !anyAllowed && len(d) > 0 {
+			w.c.Violation(fmt.Sprintf("%s:%s:%s:tree-changed:expl=none", k.v.name, v.class, cc), k.id, det())
+		}
+		if bad == 0 && !resp.OK() && len(w.disclosed(b, resp, nil)) > 0 {
+			w.c.Violation(fmt.Sprintf("%s:%s:%s:data-disclosed:expl=none", k.v.name, v.class, cc), k.id, det())
+		}
 	case v.perKey != nil && !v.allow:
 		// batch delete with at least one denied key: the denied keys must survive
 		bad := false
